@@ -796,7 +796,8 @@ class DocutilsRenderer(RendererProtocol):
         node["names"].append(name)
         self.document.note_implicit_target(node, node)
 
-        if level > self.md_config.heading_anchors:
+        # note, None is (still) accepted by the configuration validator, as in earlier versions
+        if level > (self.md_config.heading_anchors or 0):
             return
 
         # Create an implicit reference slug.
